@@ -326,3 +326,13 @@ Qed.
 
 Print Assumptions pep_normalise_idempotent.
 Print Assumptions render_pep440_fixed_point.
+
+(* the normal form determines the value: two accepted spellings with the same normal form are parsed to the SAME value (in particular they
+   compare equal and are interchangeable everywhere) *)
+Theorem same_normal_form_same_value s1 s2 v1 v2 : pep_parse s1 = Some v1 -> pep_parse s2 = Some v2 -> pep_print v1 = pep_print v2 -> v1 = v2.
+Proof.
+  intros H1 H2 E. pose proof (pep_normalise_idempotent s1 v1 H1) as A. pose proof (pep_normalise_idempotent s2 v2 H2) as B. rewrite E in A. congruence.
+Qed.
+
+Corollary same_normal_form_equal s1 s2 v1 v2 : pep_parse s1 = Some v1 -> pep_parse s2 = Some v2 -> pep_print v1 = pep_print v2 -> pep_cmp v1 v2 = Eq.
+Proof. intros H1 H2 E. rewrite (same_normal_form_same_value s1 s2 v1 v2 H1 H2 E). apply Pep440Order.pep_cmp_eq. reflexivity. Qed.
